@@ -3,6 +3,7 @@ package props
 import (
 	"bytes"
 	"fmt"
+	"strings"
 
 	"github.com/yuin/goldmark/ast"
 
@@ -70,9 +71,11 @@ func hardWrapWalk(o, h []byte, xhtml bool) (int, bool) {
 	return k, i == len(o) && j == len(h)
 }
 
-// piecesMatch checks that out_U is out with each placeholder replaced by arbitrary bytes.
+// piecesMatch checks that out_U is out with each placeholder comment replaced by arbitrary bytes and each emptied
+// href/src value replaced by an attribute value (bytes without a double quote) - and nothing else changed.
 func piecesMatch(safe, unsafe []byte) bool {
 	var pieces [][]byte
+	var urlGap []bool // urlGap[i]: the gap after pieces[i] is an attribute value
 	rest := safe
 	for {
 		best, bl := -1, 0
@@ -87,6 +90,7 @@ func piecesMatch(safe, unsafe []byte) bool {
 		}
 		if bl == len(omitted) {
 			pieces = append(pieces, rest[:best])
+			urlGap = append(urlGap, false)
 			rest = rest[best+bl:]
 			// an HTML block's placeholder is the comment plus a newline, while the original bytes may end without
 			// one (end of input): the newline directly after the comment belongs to the placeholder
@@ -95,7 +99,8 @@ func piecesMatch(safe, unsafe []byte) bool {
 			}
 		} else {
 			pieces = append(pieces, rest[:best+bl-1]) // up to and including the opening quote
-			rest = rest[best+bl-1:]                   // continues with the closing quote
+			urlGap = append(urlGap, true)
+			rest = rest[best+bl-1:] // continues with the closing quote
 		}
 	}
 	if len(pieces) == 1 {
@@ -104,16 +109,43 @@ func piecesMatch(safe, unsafe []byte) bool {
 	if !bytes.HasPrefix(unsafe, pieces[0]) {
 		return false
 	}
-	pos := len(pieces[0])
-	for _, p := range pieces[1 : len(pieces)-1] {
-		i := bytes.Index(unsafe[pos:], p)
-		if i < 0 {
-			return false
+	// match pieces[i:] against unsafe[pos:], the gap before pieces[i] being of kind urlGap[i-1]
+	var match func(i, pos int) bool
+	match = func(i, pos int) bool {
+		p := pieces[i]
+		last := i == len(pieces)-1
+		try := func(at int) bool {
+			if !bytes.HasPrefix(unsafe[at:], p) {
+				return false
+			}
+			if last {
+				return at+len(p) == len(unsafe)
+			}
+			return match(i+1, at+len(p))
 		}
-		pos += i + len(p)
+		if urlGap[i-1] {
+			q := bytes.IndexByte(unsafe[pos:], '"')
+			if q < 0 {
+				return false
+			}
+			return try(pos + q) // the value ends at the first quote: the next piece starts exactly there
+		}
+		if last {
+			return len(unsafe)-len(p) >= pos && try(len(unsafe)-len(p))
+		}
+		for at := pos; at <= len(unsafe)-len(p); at++ {
+			j := bytes.Index(unsafe[at:], p)
+			if j < 0 {
+				return false
+			}
+			at += j
+			if try(at) {
+				return true
+			}
+		}
+		return false
 	}
-	last := pieces[len(pieces)-1]
-	return len(unsafe)-len(last) >= pos && bytes.HasSuffix(unsafe, last)
+	return match(1, len(pieces[0]))
 }
 
 type c10Worker struct {
@@ -209,6 +241,46 @@ func runC10(r *core.Run) {
 					cw := newC10Worker(ext)
 					return func(word []byte) uint64 { return c10Case(s, cw, word) }
 				})
+		}
+	}
+	// dangerous destinations in every URL-bearing construct, with and without titles / attributes / neighbours: Unsafe
+	// may only change the URL itself
+	{
+		titled := []string{"[a](§ \"t\")", "[a](<§> 't')", "![a](§ \"t\")", "![a](<§> (t))", "[a][r]\n\n[r]: § \"t\"", "![a][r]\n\n[r]: <§> 't'", "[*a* `b`](§ \"t\") c", "[a](§ \"t\") [b](/ok \"u\") ![c](§ \"v\")",
+			"# [a](§ \"t\") {#i .c}", "|[a](§ \"t\")|\n|:-:|\n|![b](§ 'u')|", "x[^1]\n\n[^1]: [a](§ \"t\")", "- [ ] [a](§ \"t\")", "~~[a](§ \"t\")~~", "<§> [a](§ \"t\")", "[![i](§ \"t\")](§ \"u\")"}
+		var urls []string
+		for _, sc := range c04Schemes {
+			spellings(sc[0], sc[1], 1, func(u string) { urls = append(urls, u) })
+		}
+		urls = append(urls, "/ok", "http://a.bc/?x=1&y=2", "#frag", "mailto:a@b.cd")
+		for _, ext := range []string{"core", "all+attr+autoid+align=attr"} {
+			var docs [][]byte
+			for _, k := range urlConstructs {
+				for _, u := range urls {
+					docs = append(docs, []byte(strings.ReplaceAll(k.tmpl, "§", u)))
+				}
+			}
+			for _, t := range titled {
+				for _, u := range urls {
+					docs = append(docs, []byte(strings.ReplaceAll(t, "§", u)))
+				}
+			}
+			s := r.Sub("dangerous-urls/"+ext, fmt.Sprintf("%d URL-bearing constructs (the %d of C04 plus %d with titles, attributes and neighbouring links/images) × %d destinations (every spelling with ≤1 obfuscation edit of the dangerous schemes, plus harmless ones) under the 8 option subsets on top of %s", len(urlConstructs)+len(titled), len(urlConstructs), len(titled), len(urls), ext))
+			s.Planned = int64(len(docs)) * 8
+			core.ForEachIndex(len(docs), core.Workers(), func(w int) func(int) {
+				cw := newC10Worker(ext)
+				return func(i int) {
+					if h := c10Case(s, cw, docs[i]); h != 0 {
+						s.Distinct(h)
+					}
+					if i%(len(docs)/5+1) == 0 {
+						s.AddSample(core.Q(docs[i]))
+					}
+				}
+			}, r.Expired)
+			s.States.Store(int64(len(docs)))
+			s.Transitions.Store(s.Evals.Load())
+			s.Done()
 		}
 	}
 	// sink contexts with benign and HTML-ish payloads
